@@ -255,7 +255,7 @@ Pump(s, x, ch, fuel) ==
     [] h.typ = "close" -> [ok |-> TRUE, s |-> [s1 EXCEPT !.rd[x].err = "eof"], status |-> "err", wrote |-> <<>>]
     [] h.typ = "fatal" -> [ok |-> TRUE, s |-> [s1 EXCEPT !.rd[x].err = "error"], status |-> "err", wrote |-> <<>>]
 
-Fuel == 64
+Fuel == 1024
 NoChoice == [L |-> 0, alert |-> TRUE, peek |-> FALSE]
 
 DoReadPeek(x, m, pu, pk) == Res(pk.ok, pk.s, m, pk.s.rd[x].err, [NoRecs EXCEPT ![x] = pu.wrote \o pk.wrote])
